@@ -180,6 +180,8 @@ def run_case(spec):
                     if e[1] == "b.copy_checkpoint.raise":
                         tag = ":copy_checkpoint_of_deleted_checkpoint"
                         break
+            if kind == "dehb" and msg.startswith("KeyError(None"):
+                tag = ":failed_slot_has_no_trial_id"  # DEHB records a failed job under trial id None (C05-K3 seen from here)
             if "Cannot resume trial_id" in msg and "'Failed'" in msg:
                 tag = ":resume_of_failed_trial"  # the scheduler promotes a trial whose job has failed (C13-K2 seen from here)
             o.violate("run_completes", f"{kind}:tuner_run_raised:{type(r.exc).__name__}{tag}", {"error": msg})
